@@ -31,7 +31,7 @@ def canon(v, _depth=0) -> str:  # noqa: C901, PLR0911, PLR0912
         return "d:%s" % str(v)
     if t is _dt.datetime:
         off = v.utcoffset()
-        return "dt:%s|%s|fold%d" % (v.isoformat(), "naive" if off is None else off.total_seconds(), v.fold)
+        return "dt:%s|%s" % (v.isoformat(), "naive" if off is None else off.total_seconds())
     if t is _dt.date:
         return "D:%s" % v.isoformat()
     if t is list:
